@@ -563,7 +563,7 @@ theorem C07_call_waitthread_only_release_partial (s : State) (op : HostOp) (hne 
 
 /-! ### `waitthread`: the caller proceeds only after the callee has ended
 
-`wrAll` (`Sched/MachineWaitthread.lean`), lifted to the driver's commands by `HostOp.apply_wr`.  Side condition on the
+`wtrAll` (`Sched/MachineWaitthread.lean`), lifted to the driver's commands by `HostOp.apply_wtr`.  Side condition on the
 program, decidable, `WTSafe p`: no `local.p0 notify 0` (a script-level notify on channel 0 of a thread), and the object
 literals of `notify` / `delete` are object ids (`< 100`).  Every generator family satisfies it (the `hub` family notifies
 its parent under names 1 and 2 only).  `local.p0 wait d` is **allowed**: it cancels the caller's registration, and the
@@ -604,7 +604,7 @@ theorem C07_call_waitthread_only_release {s : State} (h : Reachable s) (hp : WTS
     cases hf : thFind s.threads t with
     | none => rw [aliveTh_false_of_none hf] at a1; cases a1
     | some th => exact (hi.inv.n.range t th hf).2
-  have r := HostOp.apply_wr ht s op hp hlt hc
+  have r := HostOp.apply_wtr ht s op hp hlt hc
   rcases reachable_hinv (Reachable.step op h hok) with ho' | hi'
   · exact Or.inl ho'
   cases hof : (op.apply s).outOfFuel with
